@@ -177,6 +177,7 @@ def run(ctx):
     stop_rule(ctx, prog, allm)
     from props.c03 import preinsert_rule
     preinsert_rule(ctx, prog, rid="C14.PREINSERT")   # a refused insertion must leave no id behind
+    parsefirst_rule(ctx)
     seen_pairs = set()
     for e in sorted(entries, key=lambda b: b.id):
         ctx.functions_analysed.add(e.id)
@@ -315,3 +316,35 @@ def first_fail_of_call(e, mbi, fbi):
 
 def same_call_reaches(e, a, b, name):
     return None
+
+
+# ---------------------------------------------------------------------- PARSEFIRST
+def parsefirst_rule(ctx, rid="C14.PARSEFIRST"):
+    """annotate_from_file parses the whole file into helper values before it adds anything: what the parse refuses costs
+    nothing.  annotate() refuses a builder without a target only when it gets to it - after the annotations before it
+    are in the store.  So the helper's `target` stays mandatory (a missing target is a parse error of the file) and the
+    conversion into a builder always supplies Some(target)."""
+    from synq import Syn, walk, unparse, strip
+    syn = Syn(ctx.facts.syn())
+    r = ctx.rule(rid, "the JSON helper of a batch of annotations has a mandatory target, and its conversion into an AnnotationBuilder sets target: Some(..): a missing target is refused when the file is parsed, before anything is added")
+    st = syn.structs.get("AnnotationJson")
+    conv = [f for f in syn.fns if f.name in ("from", "try_from") and "AnnotationJson" in (f.trait or "") and "AnnotationBuilder" in (f.self_ty or "") and f.body is not None]
+    if st is None or len(conv) != 1:
+        ctx.anchor_missing(r, "struct AnnotationJson / From<AnnotationJson> for AnnotationBuilder")
+        return
+    ctx.functions_analysed.add(conv[0].qual)
+    tf = [f for f in st["fields"] if f["name"] == "target"]
+    r.hit("AnnotationJson.target", sample={"type": tf[0]["ty"]["s"] if tf else None})
+    if not tf:
+        ctx.anchor_missing(r, "AnnotationJson.target")
+    else:
+        ty = re.sub(r"\s+", "", tf[0]["ty"]["s"])
+        dflt = any(a.get("path") == "serde" and "default" in (a.get("tokens") or "") for a in tf[0].get("attrs", []) or [])
+        if ty.startswith("Option<") or dflt:
+            ctx.report(r, "optional-target", "AnnotationJson.target is optional (%s%s): an annotation without target in a batch file is no longer a parse error of the file but an error of annotate() in the middle of the batch, after the earlier annotations were added" % (tf[0]["ty"]["s"], ", #[serde(default)]" if dflt else ""), "src/annotation.rs", tf[0].get("l"))
+    inits = [f_ for lit in walk(conv[0].body) if lit.get("k") == "structlit" for f_ in lit["fields"] if f_["name"] == "target"]
+    r.hit("conversion", sample={"target_init": unparse(inits[0]["e"])[:40] if inits else None})
+    if inits:
+        e_ = strip(inits[0]["e"])
+        if not (e_.get("k") == "call" and unparse(e_["func"]).replace(" ", "") == "Some"):
+            ctx.report(r, "target-not-some", "the conversion of AnnotationJson into an AnnotationBuilder initialises target with `%s` instead of Some(..): a builder without a target can come out of a parsed file" % unparse(inits[0]["e"])[:40], conv[0].file, inits[0].get("l"))
